@@ -77,6 +77,16 @@ func liveOps(r *hlib.Run, where string, fs []cgen.LiveFunc) {
 		r.CountN("live:loops", f.NumLoops)
 		r.CountN("live:vars", len(f.Vars))
 		r.CountN("live:resumable-vars", len(f.Resumables))
+		// pointer-typed locals (slices, io_reader/io_writer) are never saved, whatever the analysis
+		// says (var.go writeResumeSuspend1): report the ones the analysis wants saved
+		for _, i := range f.PtrVars {
+			for _, j := range f.Resumables {
+				if i == j {
+					r.Count("live:pointer-typed-var-judged-resumable")
+					r.Note(fmt.Sprintf("%s.%s: pointer-typed local %q is live across a suspension (never saved)", where, f.Name, f.Vars[i]))
+				}
+			}
+		}
 		body := strings.TrimSpace(f.Body)
 		r.Op(fmt.Sprintf("live %d %s", len(f.Vars), body), "r "+intsStr(f.Resumables))
 		if f.NumCSPs > 0 && len(f.Vars) > 0 {
@@ -189,7 +199,8 @@ func liveStd(r *hlib.Run, repo string) {
 		tm, files, err := loadPkg(pk[name], resolve)
 		if err != nil {
 			r.Count("live:std-pkg-load-error")
-			r.Note("std/" + name + ": " + err.Error())
+			r.Fail("std-package-does-not-check:"+name, "std/"+name+" is rejected by the working tree's parser/checker, so its coroutines cannot be analysed",
+				"std/"+name+": "+err.Error())
 			continue
 		}
 		r.Count("live:std-packages")
